@@ -256,6 +256,50 @@ def check_handed_on(case):
                     return ("names.renamed-after-export", f"module of EvenBus(width={target}) was {prev[0]!r} and is "
                                                           f"{m.name!r} after EvenBus(width={wd}) handed it along", w)
         return None
+    if case == "used-before-returned":
+        # the body looks at its (already named) result before handing it back: exports it, asks for its qualified name,
+        # uses it as a Module-valued parameter - none of which may freeze the name it is exported under later
+        from hdl21.qualname import qualname
+
+        @h.paramclass
+        class MP:
+            m = h.Param(dtype=h.Instantiable, desc="m")
+
+        @h.generator
+        def Holder(p: MP) -> h.Module:
+            mm = h.Module()
+            mm.a = h.Port()
+            mm.i = p.m(inp=mm.a, out=mm.a)
+            return mm
+        for how in ("to_proto", "qualname", "as-param"):
+            @h.generator
+            def Amp(p: WP) -> h.Module:
+                @h.module
+                class Amp:
+                    inp, out = h.Input(), h.Output()
+                    r = h.IdealResistor(r=p.width * h.prefix.K)(p=inp, n=out)
+                if how == "to_proto":
+                    h.to_proto(Amp)
+                elif how == "qualname":
+                    qualname(Amp)
+                else:
+                    Holder(m=Amp)
+                return Amp
+            a, b = Amp(width=1), Amp(width=2)
+            if a is b or a.name == b.name:
+                return ("names.collide", f"{how}: Amp(width=1) and Amp(width=2) are named {a.name!r} / {b.name!r}", w)
+            top = h.Module(name=f"UsesBoth_{how.replace('-', '_')}")
+            top.s = h.Signal()
+            top.x = a(inp=top.s, out=top.s)
+            top.y = b(inp=top.s, out=top.s)
+            try:
+                exported = [mm.name for mm in h.to_proto(top).modules]
+            except Exception as e:
+                return ("names.export", f"{how}: design using both modules not exportable: {str(e)[:140]}", w)
+            for mod in (a, b):
+                if sum(1 for n in exported if n.endswith(mod.name)) != 1:
+                    return ("names.export-collide", f"{how}: module {mod.name!r} is exported as {exported}", w)
+        return None
     if case == "chain":
         base = EvenBus(width=8)
         n0 = base.name
@@ -307,7 +351,7 @@ def run(ctx):
     obs, info = cn.injectivity_obligations()
     for u in info.get("unsupported", []):
         ctx.unsupported.append(("hdl21.params:_unique_name", u))
-    if len(obs) < 6 and not info.get("unsupported"):
+    if len(obs) < 6 and not info.get("unsupported") and not any(o.meta.get("havoc") for o in obs):
         ctx.checker_errors.append(f"only {len(obs)} injectivity obligations generated")
     ctx.discharge(obs, "hdl21.params:_unique_name", info, replay=replay_injectivity)
     ctx.assumptions += ["hashed branch of _unique_name: md5 is collision free and the JSON encoding is injective on "
@@ -328,10 +372,11 @@ def run(ctx):
     ctx.assumptions.append("generator bodies (user code) keep the cache bookkeeping and do not mutate Generator / "
                            "GeneratorCall objects (assumed contract GenBody); _unique_name / hasparams are abstracted "
                            "as functions of their argument in the proof of _run")
-    ctx.run_bounded("handed-on-module", ["handed-on", "self-handed-on", "chain"], check_handed_on,
+    ctx.run_bounded("handed-on-module", ["handed-on", "self-handed-on", "chain", "used-before-returned"], check_handed_on,
                     rule="a generator returning another generator's module, its own module for normalised parameters "
-                         "(3 call orders), a chain of three generators; names and exported names before/after",
-                    bound="3 programs", key_of=repr)
+                         "(3 call orders), a chain of three generators; a named result exported / qualified / used as a parameter inside the "
+                         "body; names and exported names before/after",
+                    bound="4 programs", key_of=repr)
     ctx.run_bounded("paramclass-fields", ["all"], check_paramclass_fields,
                     rule="dataclass fields of every paramclass importable from hdl21 + the family's shapes: compare and "
                          "hash flags", bound="all paramclasses of the library", key_of=repr)
@@ -340,7 +385,7 @@ def run(ctx):
 
 def replay(payload):
     inp = payload.get("input") or (payload.get("replay") or {}).get("input") or {}
-    if inp.get("case") in ("handed-on", "self-handed-on", "chain"):
+    if inp.get("case") in ("handed-on", "self-handed-on", "chain", "used-before-returned"):
         r = check_handed_on(inp["case"])
     elif inp.get("case") == "paramclass-fields":
         r = check_paramclass_fields(0)
